@@ -630,6 +630,7 @@ func specialCases(c *Ctx, name string) {
 func deliveryCases(c *Ctx, f *format) {
 	ins := append(c.specialInputs(f.name), c.hugeInputs(f.name)...)
 	ins = append(ins, c.exactLineInputs(f.name)...)
+	ins = append(ins, c.rawMagicInputs(f)...)
 	for i, in := range ins {
 		limit := len(in.data) + 16
 		if len(in.data) > 50000 {
@@ -652,7 +653,7 @@ func deliveryCases(c *Ctx, f *format) {
 		try(&chunkReader{data: in.data, sizes: []int{3, 0, 7}}, "3, empty, 7 …")
 		try(&chunkReader{data: in.data, sizes: []int{4096}}, "4096-byte chunks")
 		try(&chunkReader{data: in.data, withEOF: true}, "everything together with EOF")
-		if len(in.data) < 50000 && !bytes.Contains(in.data, []byte("\r")) {
+		if len(in.data) < 50000 && !bytes.Contains(in.data, []byte("\r")) && !strings.HasPrefix(in.desc, "raw:") {
 			cr := crlf(in.data)
 			if f.name == "newick" {
 				cr = crlfOutsideQuotes(in.data)
@@ -3022,4 +3023,58 @@ func alignLopsided(c *Ctx, prop string) {
 			}
 		}
 	}
+}
+
+// rawMagicInputs (C06): STREAMS whose very first bytes are a compressed-stream magic number or a byte-order mark,
+// followed by well-formed text, and real gzip/bzip2-looking bytes handed to Reader as they are.  Reader does not
+// decompress (File does, by suffix): whatever these bytes decode to, they decode to the same items however they
+// are delivered -- a Reader that sniffs its first Read for a magic number depends on how many bytes that Read
+// returned.  `want` is the decode of the whole input at once.
+func (c *Ctx) rawMagicInputs(f *format) []wfInput {
+	var out []wfInput
+	add := func(data []byte, d string) {
+		items, st := f.decode(bytes.NewReader(data), 0, len(data)+16)
+		out = append(out, wfInput{data: data, want: itemsStr(items, st), desc: "raw: " + d})
+	}
+	text := f.wellFormed(c)
+	for len(text) < 40 {
+		text = append(text, f.wellFormed(c)...)
+	}
+	for _, m := range magics {
+		add(append(append([]byte(nil), m...), text...), fmt.Sprintf("the stream starts with bytes % x, then well-formed text", m))
+		if f.name == "fasta" {
+			add(append(append(append([]byte(nil), m...), []byte("ACGT\nAC\n")...), text...), fmt.Sprintf("a nameless first sequence starting with bytes % x", m))
+		}
+	}
+	var zb bytes.Buffer
+	zw := gzip.NewWriter(&zb)
+	zw.Write(text)
+	zw.Close()
+	add(zb.Bytes(), "the gzip compression of well-formed text, handed to Reader as it is")
+	add(zb.Bytes()[:len(zb.Bytes())/2], "half of a gzip stream, handed to Reader as it is")
+	return out
+}
+
+// veryLongLineInputs: three records, the middle one a line of ~70 000 or ~140 000 bytes (beyond 64 KiB and 128 KiB
+// buffers) whose LAST field is long, so that a line cut anywhere in its second half still looks well formed.
+func (c *Ctx) veryLongLineInputs(name string) [][]byte {
+	var out [][]byte
+	fill := func(n int) string { return string(c.bytesFrom([]byte("ACGTacgt"), n)) }
+	for _, L := range []int{70000, 140000} {
+		switch name {
+		case "fasta":
+			out = append(out, []byte(">a\nAC\n>n\n"+fill(L)+"\n>m\nAC\n"))
+		case "fastq":
+			out = append(out, []byte("@a\nA\n+\nI\n@r1\n"+fill(L/2)+"\n+\n"+fill(L/2)+"\n@r2\nAC\n+\nII\n"))
+		case "sam", "samh":
+			rec := "q\t0\tr\t1\t2\t*\t=\t3\t4\t"
+			out = append(out, []byte("@HD\tVN:1\nq0\t0\tr\t1\t2\t*\t=\t3\t4\tA\tI\n"+rec+fill(L/4)+"\t"+fill(3*L/4)+"\nq2\t0\tr\t1\t2\t*\t=\t3\t4\tC\tI\n"))
+			out = append(out, []byte("q0\t0\tr\t1\t2\t*\t=\t3\t4\tA\tI\n"+rec+"AC\tII\tXA:Z:"+fill(L)+"\nq2\t0\tr\t1\t2\t*\t=\t3\t4\tC\tI\n"))
+		case "bed":
+			out = append(out, []byte("c\t5\t6\tn0\nchr1\t1\t2\t"+fill(L)+"\nc\t7\t8\tn2\n"))
+		case "newick":
+			out = append(out, []byte("(a,b)c;\n(d,"+fill(L)+")f;\n(g,h)i;\n"))
+		}
+	}
+	return out
 }
